@@ -20,7 +20,7 @@ RULES = {
           "no store through type(self)/a base)",
     "R3": "getters follow the MRO: getattr(self, '_jpeg_quality', -1), getattr(self, '_read_from_file', True), self._render_method; "
           "at render time the effective method is `(method or self._render_method).lower()` (per-call override first, "
-          "case-normalised as a whole) in every graphics renderer",
+          "case-normalised as a whole) in every graphics renderer; shared with C09.R5: ImageIterator never rebinds the style arguments frames are rendered with",
     "R4": "class-only settings are read-only on instances: the instance-side forced_support / native_anim_max_bytes are "
           "ClassProperty objects built with a getter only; the metaclass setters validate before storing",
     "R5": "native_anim_max_bytes is one global cell: all accessors read/write __class__._native_anim_max_bytes on the metaclass, "
@@ -251,6 +251,12 @@ def run(ck, m):
             if setd or sub or kwm:
                 ck.ob("R3", enclosing_stmt(c), False, f"{q_} chooses a render method itself (`{short(c, 50)}`): the method used must be the per-call override or else the effective (instance -> class -> default) one",
                       stmt=f"{q_}: no programmatic method override")
+    # ---- shared with C09.R5: ImageIterator never rebinds the style arguments it renders frames with
+    from tiv.report import Scoped
+    import rules.c09 as c09
+    sc9 = Scoped(ck, "R3", lambda c: c.endswith("ImageIterator._animate"), rids={"R5"})
+    c09.run(sc9, m)
+    ck.expect(sc9.kept >= 4, f"expected the ImageIterator cache obligations of C09.R5 (got {sc9.kept})")
 
 
 MUTANTS = [
